@@ -29,6 +29,8 @@ def gen_config(rng, tier, profile):
   strat = rng.choice(STRATEGIES)
   if profile == 'c17' and rng.random() < 0.3:
     strat = rng.choice(['bucketmax', 'timesorted', 'sorted'])
+  if profile == 'c04' and rng.random() < 0.25:
+    strat = 'timesorted'        # the strategy whose hold-back (MIN_TIMESTAMP_LAG) the shutdown must lift
   s['CACHE_WRITE_STRATEGY'] = strat
   bounded = rng.random() < {'c10': 1.0, 'c09': 1.0, 'c02': 0.65, 'c17': 0.4}.get(profile, 0.3)
   if bounded:
@@ -39,7 +41,7 @@ def gen_config(rng, tier, profile):
     s['MAX_CACHE_SIZE'] = float('inf')
     s['USE_FLOW_CONTROL'] = rng.random() < 0.5
   if strat == 'timesorted' or rng.random() < 0.15:
-    s['MIN_TIMESTAMP_LAG'] = rng.choice([0, 0, 5, 60])
+    s['MIN_TIMESTAMP_LAG'] = rng.choice([0, 0, 5, 60] if profile != 'c04' else [0, 5, 60, 60])
   if profile in ('c03', 'c04', 'c19', 'c20', 'c09'):
     s['MAX_UPDATES_PER_SECOND'] = rng.choice([float('inf'), 1, 2, 5, 50, 500])
     s['MAX_CREATES_PER_MINUTE'] = rng.choice([float('inf'), float('inf'), 1, 2, 10, 60])
@@ -276,6 +278,8 @@ def gen_plan(rng, cfg, tier, profile):
     plan.setdefault('db_faults', {})[str(rng.randrange(0, 12))] = ['raise', 'ioerror']
   if rng.random() < 0.3:
     plan['oversleep'] = [rng.choice([0.0, 0.0, 0.001, 0.3]) for _ in range(5)]
+  if profile in ('c04', 'c20') and rng.random() < 0.5:
+    plan['shutdown_gaps'] = True       # the reactor thread is descheduled between shutdown triggers
   if profile in ('c02', 'c10') and rng.random() < 0.15:
     plan['stall'] = rng.choice([0.3, 1.0, 5.0])      # a thread stalls while it holds the cache lock
   if 'hot' not in plan and 'pct_points' not in plan and rng.random() < 0.3:
